@@ -359,7 +359,9 @@ pub fn cited(rec: &str) -> Option<Cited> {
         let text = text.strip_suffix(':').unwrap_or(text);
         return Some(Cited::At { line, col: Some(col), text: text.trim().to_owned() });
     }
-    if first.starts_with("Syntax Error") {
+    if first.starts_with("Syntax Error") && !first.bytes().any(|b| b.is_ascii_digit()) {
+        // a syntax diagnostic whose headline holds no number at all names no line; one that holds
+        // numbers in a layout this reader does not know is left alone
         return Some(Cited::NoPosition(rec.chars().take(80).collect()));
     }
     if first.starts_with("Label ") {
